@@ -342,6 +342,30 @@ class Linear(Domain):
             return NONLIN
         raise Incomplete('np.%s applied to a gradient-dependent value is not in the linearity table (%s)' % (name, norm(node)))
 
+    def decide(self, I, test, env):
+        """presence tests on parameters the analysis was told are present (self.present) or absent (self.absent): `p is None`, `p is not None`, `p`, `not p`"""
+        present, absent = getattr(self, 'present', ()), getattr(self, 'absent', ())
+        if not present and not absent:
+            return None
+
+        def ev(e):
+            if isinstance(e, ast.UnaryOp) and isinstance(e.op, ast.Not):
+                r = ev(e.operand)
+                return None if r is None else not r
+            if isinstance(e, ast.BoolOp):
+                rs = [ev(v) for v in e.values]
+                if isinstance(e.op, ast.And):
+                    return False if any(r is False for r in rs) else (True if all(r is True for r in rs) else None)
+                return True if any(r is True for r in rs) else (False if all(r is False for r in rs) else None)
+            if isinstance(e, ast.Compare) and len(e.ops) == 1 and isinstance(e.ops[0], (ast.Is, ast.IsNot)) and isinstance(e.left, ast.Name) \
+                    and isinstance(e.comparators[0], ast.Constant) and e.comparators[0].value is None:
+                if e.left.id in present:
+                    return isinstance(e.ops[0], ast.IsNot)
+                if e.left.id in absent:
+                    return isinstance(e.ops[0], ast.Is)
+            return None
+        return ev(test)
+
     def dict_literal(self, I, keys, values, node):
         # a table of gradient-independent entries is gradient independent (lookups / .get on it with such keys stay CONST)
         if all(self.c(x) in (CONST, NONE) for x in list(keys) + list(values)):
